@@ -6,14 +6,19 @@
    Claim checked by TLC: if every library step leaves the shared cells unchanged, every call returns exactly
    what it returns when run alone (result = Alone(op)), whatever the interleaving.
    With AllowWrite = TRUE one operation sorts its argument in place, as a control: TLC must then find both
-   the purity violation and a call that returns something else than its sequential result. *)
+   the purity violation and a call that returns something else than its sequential result.
+   Results that are OBJECTS (a Bounds, nested coordinates, a cloned or computed geometry) belong to the caller, who
+   may overwrite them (Scribble): the operation "box" returns such an object; it must be made of fresh storage.
+   With AllowAlias = TRUE (third control) the box is a view of the argument's first cell and the caller's write goes
+   through to the shared cell: TLC must find the purity violation. *)
 EXTENDS Integers, Sequences, FiniteSets, TLC
-CONSTANTS NProc, AllowWrite, MaxCalls
+CONSTANTS NProc, AllowWrite, AllowAlias, MaxCalls
 Cells == 1..3
 Init0 == [c \in Cells |-> 4 - c]                      \* initial contents 3, 2, 1 (unsorted, so that a sort is visible)
-Ops == IF AllowWrite THEN {"sum", "max", "sortsum"} ELSE {"sum", "max"}
+Ops == (IF AllowWrite THEN {"sum", "max", "sortsum"} ELSE {"sum", "max"}) \cup {"box"}
 \* what an operation returns when it runs alone on the initial cells
 Alone(op) == CASE op = "sum" -> Init0[1] + Init0[2] + Init0[3] [] op = "max" -> 3 [] op = "sortsum" -> Init0[1] + Init0[2] + Init0[3]
+                 [] op = "box" -> 3
 VARIABLES cell, pc, op, acc, k, res, calls
 vars == <<cell, pc, op, acc, k, res, calls>>
 Procs == 1..NProc
@@ -24,7 +29,7 @@ Start(p) == /\ pc[p] \in {"idle", "done"} /\ calls[p] < MaxCalls /\ \E o \in Ops
             /\ pc' = [pc EXCEPT ![p] = "run"] /\ acc' = [acc EXCEPT ![p] = 0] /\ k' = [k EXCEPT ![p] = 1]
             /\ UNCHANGED <<cell, res>>
 Read(p) ==  /\ pc[p] = "run" /\ k[p] <= 3
-            /\ acc' = [acc EXCEPT ![p] = IF op[p] = "max" THEN (IF cell[k[p]] > @ THEN cell[k[p]] ELSE @) ELSE @ + cell[k[p]]]
+            /\ acc' = [acc EXCEPT ![p] = IF op[p] \in {"max", "box"} THEN (IF cell[k[p]] > @ THEN cell[k[p]] ELSE @) ELSE @ + cell[k[p]]]
             /\ k' = [k EXCEPT ![p] = @ + 1]
             \* the control operation bubbles its argument into order while it reads it
             /\ cell' = IF op[p] = "sortsum" /\ k[p] < 3 /\ cell[k[p]] > cell[k[p] + 1]
@@ -33,7 +38,13 @@ Read(p) ==  /\ pc[p] = "run" /\ k[p] <= 3
 Return(p) == /\ pc[p] = "run" /\ k[p] = 4
              /\ res' = [res EXCEPT ![p] = acc[p]] /\ pc' = [pc EXCEPT ![p] = "done"]
              /\ UNCHANGED <<cell, op, acc, k, calls>>
-Next == \E p \in Procs : Start(p) \/ Read(p) \/ Return(p)
+\* the caller overwrites the object a finished "box" call handed out (once): fresh storage is nobody else's business;
+\* under the control the object is a view of cell 1
+Scribble(p) == /\ pc[p] = "done" /\ op[p] = "box"
+               /\ pc' = [pc EXCEPT ![p] = "idle"]
+               /\ cell' = IF AllowAlias THEN [cell EXCEPT ![1] = 0] ELSE cell
+               /\ UNCHANGED <<op, acc, k, res, calls>>
+Next == \E p \in Procs : Start(p) \/ Read(p) \/ Return(p) \/ Scribble(p)
 Spec == Init /\ [][Next]_vars
 \* purity: no library step changes a shared cell
 Pure == [][cell' = cell]_vars
